@@ -136,7 +136,23 @@ def _(c):
     c.yield_ensures('yields-the-algorithm-the-name-denotes',
                     lambda s, y: z3.And(in_table(s.cur.h), y == table_term(s.cur.h)))
     c.exc_ensures('unsupported-only-for-names-outside-the-table', 'UnsupportedHash',
-                  lambda s: z3.Not(in_table(s.cur.h)))
+                  lambda s: z3.Not(in_table(s.cur.h)), internal=True)
+
+    def model(it, bound, node):
+        """call-site model (the generator is consumed at once by list() at both call sites, so the
+        UnsupportedHash of the first unknown name is raised here): the names mapped through the table"""
+        hs = it._norm_container(it.ctx.force(bound['hashes']))
+        if isinstance(hs, VTuple):
+            hs = it.lib.to_seq(it, VCell(hs, 'list'), Str) if hs.items else VSeq(z3.Empty(SeqSS), Str, 'list')
+        alltab = z3.Function('hashes_all_in_table', SeqSS, z3.BoolSort())
+        mapped = z3.Function('map_hashlib_names', SeqSS, SeqSS)
+        it.engine.assumed.add('contract of manifest_hashes_to_hashlib used at the call site (map through the GLEP 74 table)')
+        if not it.ctx.branch(alltab(hs.t), 'all-names-in-table'):
+            raise PyRaise(VExc('UnsupportedHash', [], {}, line=getattr(node, 'lineno', None)))
+        r = VSeq(mapped(hs.t), Str, 'list')
+        it.ctx.assume(z3.Length(r.t) == z3.Length(hs.t))
+        return VIter(r, z3.IntVal(0))
+    c.model = model
 
     def table_matches(repo):
         import ast
